@@ -454,7 +454,10 @@ class Fetcher:
 
         for x in self._pending_tasks:
             x.cancel()
-            await x
+            # A task cancelled outside of its request (e.g. in the retry
+            # back-off) ends with CancelledError; that is expected here.
+            with contextlib.suppress(asyncio.CancelledError):
+                await x
 
     def _notify(self, future):
         if future is not None and not future.done():
